@@ -85,6 +85,9 @@ struct Truth {
     alt_first: Option<Vec<ValidatedShred>>,
     /// another validly signed block of the same leader in the same slot
     other: wire::BuiltBlock,
+    /// the liar answers every shred request at once with the data/coding tag flipped (and answers
+    /// everything else correctly): a fast peer that spoils as many requests as it can
+    focused_tag_flipper: bool,
 }
 
 fn mutate_proof(p: &DoubleMerkleProof) -> DoubleMerkleProof {
@@ -115,6 +118,29 @@ fn liar_answer(req: &Req, t: &Truth) -> Vec<RepairResponse> {
     let root_of = |k: usize| t.blk.shreds[k][0].slice_root().clone();
     let mut out = Vec::new();
     let about_target = req.block == t.id;
+    if t.focused_tag_flipper && about_target {
+        match req.variant {
+            0 => {
+                let last = n_slices - 1;
+                out.push(RepairResponse::LastSliceRoot(rt, si(last), root_of(last), t.blk.tree.create_proof(last)));
+            }
+            1 => {
+                let k = (req.slice.unwrap_or(0) as usize).min(n_slices - 1);
+                out.push(RepairResponse::SliceRoot(rt, root_of(k), t.blk.tree.create_proof(k)));
+            }
+            _ => {
+                let k = (req.slice.unwrap_or(0) as usize).min(n_slices - 1);
+                let i = (req.shred.unwrap_or(0) as usize).min(TOTAL_SHREDS - 1);
+                let mut b = wire::shred_bytes(t.blk.shreds[k][i].as_shred());
+                b[wire::SHRED_OFF_TAG] ^= 1;
+                kernel::fault("liar_flipped_type_tag");
+                if let Some(s) = wire::decode_shred(&b) {
+                    out.push(RepairResponse::Shred(rt, s));
+                }
+            }
+        }
+        return out;
+    }
     match req.variant {
         0 => {
             let last = n_slices - 1;
@@ -267,7 +293,7 @@ async fn liar_task(net: SimNet<RepairResponse, RepairRequest>, truth: Arc<Truth>
         kernel::event(&format!("liar got v{} slice={:?} shred={:?}", r.variant, r.slice, r.shred));
         for resp in liar_answer(&r, &truth) {
             // optional delay before answering
-            let d = kernel::choose(L, 4) * 100;
+            let d = if truth.focused_tag_flipper { 0 } else { kernel::choose(L, 4) * 100 };
             if d > 0 {
                 tokio::time::sleep(Duration::from_millis(d)).await;
             }
@@ -304,7 +330,11 @@ pub fn run(prop: &str, max_slices: usize) -> WorldOutcome {
         None
     };
     let other = wire::simple_block(Slot::new(slot), parent.clone(), 1 + kernel::choose(G, 3) as usize, 77, &kp.sk);
-    let truth = Arc::new(Truth { id: id.clone(), blk, alt_first, other });
+    let focused_tag_flipper = kernel::choose(G, 6) == 1;
+    if focused_tag_flipper {
+        kernel::fault("liar_is_a_fast_tag_flipper");
+    }
+    let truth = Arc::new(Truth { id: id.clone(), blk, alt_first, other, focused_tag_flipper });
 
     // peers
     let mut roles = vec![PeerRole::Silent; n];
